@@ -553,6 +553,9 @@ func BatchFunc[T any](
 				if len(batch) > 0 {
 					// Time already elapsed, just deliver the batch now.
 					if time.Since(batchStart) > maxWait {
+						// A timer armed for this batch may already have fired; stop it so that it
+						// cannot flush the next batch early (or empty).
+						stopTimer()
 						if !flush() {
 							return
 						}
